@@ -224,18 +224,24 @@ def op_hab(o: dict) -> dict:
         {"sections": [{"section_id": SecCommand.INSTALL_SECRET_KEY.tag, "options": [{"SecretKey_Name": "dek.bin"}, {"SecretKey_Length": length}]}]}
     )
     cfg = HabConfig(app_image=BinaryImage("app", binary=b"\0" * 64), options=OptionsConfig(flags=0, start_address=0), commands=cmds)
-    with tempfile.TemporaryDirectory(prefix="verif-c17-") as td:
-        dek = CsfHabSegment.get_dek_from_config(cfg, search_paths=[td])
-        with open(os.path.join(td, "dek.bin"), "rb") as f:
-            stored = f.read()
+    # the workspace is durable state: it survives "restarts" (epochs) of one history, like a build folder does
+    td = os.path.join(WORKDIR, o.get("ws", "ws0"))
+    os.makedirs(td, exist_ok=True)
+    dek = CsfHabSegment.get_dek_from_config(cfg, search_paths=[td])
+    with open(os.path.join(td, "dek.bin"), "rb") as f:
+        stored = f.read()
     return {"kind": "hab_dek", "slots": {"dek": dek.hex()}, "explicit": [], "stored_equal": stored == dek}
 
+
+WORKDIR = tempfile.gettempdir()
 
 OPS = {"sb2": op_sb2, "mbi_class": op_mbi_class, "mbi_config": op_mbi_config, "otfad": op_otfad, "iee": op_iee, "bee": op_bee, "hab": op_hab}
 
 
 def run_epoch(spec: dict) -> dict:
     """Runs in the forked child. spec: first_draw, wall_us, imports[], ops[]."""
+    global WORKDIR
+    WORKDIR = spec["workdir"]
     ent = Entropy(spec["first_draw"])
     install(ent, spec["wall_us"])
     import importlib
@@ -269,4 +275,10 @@ def run_epoch(spec: dict) -> dict:
         out["fatal"] = f"{type(exc).__name__}: {exc}\n{traceback.format_exc()[-2000:]}"
     out["draws"] = ent.log
     out["next_draw"] = ent.d
+    try:
+        from simkit.simtime import CLOCK as _C
+
+        out["clock"] = {"now_us": _C.now_us, "sleeps": _C.sleeps, "slept_us": _C.slept_us}
+    except Exception:  # pylint: disable=broad-except
+        pass
     return out
